@@ -13,7 +13,7 @@ Definition g11_default_curves : list N := [4588; 29; 23; 24].
 Definition g11_curve_mlkem : N := 4588.
 Definition g11_default_sigs : list N := [1027; 1283; 1539; 2055; 2052; 2053; 2054; 1025; 1281; 1537].
 Definition g11_sigs : list (N * (bool * list N * list N * bool)) :=
-  [(256, (true, [], [], true)); (257, (true, [3], [], true)); (259, (true, [2], [2], true)); (263, (true, [1], [1], true)); (512, (true, [], [], true)); (513, (true, [3], [], true)); (515, (true, [2], [2], true)); (519, (true, [1], [1], true)); (768, (false, [], [], true)); (769, (false, [3], [], true)); (771, (false, [2], [2], true)); (775, (false, [1], [1], true)); (1024, (false, [], [], true)); (1025, (false, [3], [], true)); (1027, (false, [2], [2], true)); (1031, (false, [1], [1], true)); (1280, (false, [], [], true)); (1281, (false, [3], [], true)); (1283, (false, [2], [2], true)); (1287, (false, [1], [1], true)); (1536, (false, [], [], true)); (1537, (false, [3], [], true)); (1539, (false, [2], [2], true)); (1543, (false, [1], [1], true)); (2048, (false, [], [], true)); (2049, (false, [3], [], true)); (2051, (false, [2], [2], true)); (2052, (false, [], [3], false)); (2053, (false, [], [3], false)); (2054, (false, [], [3], false)); (2055, (false, [1], [1], true)); (2057, (false, [], [], false)); (2058, (false, [], [], false)); (2059, (false, [], [], false))].
+  [(256, (true, [], [], true)); (257, (true, [3], [], true)); (259, (true, [2], [2], true)); (263, (true, [1], [1], true)); (512, (true, [], [], true)); (513, (true, [3], [], true)); (515, (true, [2], [2], true)); (519, (true, [1], [1], true)); (768, (false, [], [], true)); (769, (false, [3], [], true)); (771, (false, [2], [2], true)); (775, (false, [1], [1], true)); (1024, (false, [], [], true)); (1025, (false, [3], [], true)); (1027, (false, [2], [2], true)); (1031, (false, [1], [1], true)); (1280, (false, [], [], true)); (1281, (false, [3], [], true)); (1283, (false, [2], [2], true)); (1287, (false, [1], [1], true)); (1536, (false, [], [], true)); (1537, (false, [3], [], true)); (1539, (false, [2], [2], true)); (1543, (false, [1], [1], true)); (2048, (false, [], [], true)); (2049, (false, [3], [], true)); (2051, (false, [2], [2], true)); (2052, (false, [], [3], true)); (2053, (false, [], [3], true)); (2054, (false, [], [3], true)); (2055, (false, [1], [1], true)); (2057, (false, [], [], true)); (2058, (false, [], [], true)); (2059, (false, [], [], true))].
 Definition g11_auth_certificate : N := 1.
 Definition g11_auth_psk : N := 2.
 Definition g11_auth_anonymous : N := 3.
